@@ -1,5 +1,6 @@
 (* C06 — Dry-run and template never change the cluster or the release history.
    Property theorems only: each closed by [exact] of a lemma proved in Engine/DryRunProofs.v. *)
+From Helm Require Props.Skeleton. (* effect skeleton tied to /repo by the translator: notes/SKEL.md *)
 From Coq Require Import List String Bool ZArith.
 From Helm Require Import Engine.Types Engine.Eff Engine.Ops Engine.Cluster Engine.Seq
                          Engine.DryRun Engine.DryRunProofs Gen.DryRunSpellings.
